@@ -99,3 +99,20 @@ Proof.
 Qed.
 
 End OverTable.
+
+(* ---- a seek forgets the history ---------------------------------------------------------
+   On the cursor specification: whatever was done before a seek (and wherever the cursor
+   started), what follows the seek is the same list of answers. *)
+Lemma run_spec_seek_forgets nb B kind k key post : forall pre c,
+  exists out, length out = length pre /\
+    run_spec nb B kind k c (pre ++ RSeek key :: post) =
+    out ++ None :: run_spec nb B kind k (Some (gfirst nb B key)) post.
+Proof.
+  induction pre as [|op pre IH]; intros c.
+  - exists []. split; reflexivity.
+  - destruct op as [|k'].
+    + cbn [app run_spec]. destruct (spec_next nb B kind k c) as [c' e].
+      destruct (IH c') as (out & Hl & Hr). exists (e :: out). split; [cbn; lia|]. rewrite Hr. reflexivity.
+    + cbn [app run_spec]. destruct (IH (Some (gfirst nb B k'))) as (out & Hl & Hr).
+      exists (None :: out). split; [cbn; lia|]. rewrite Hr. reflexivity.
+Qed.
